@@ -28,7 +28,7 @@ func (c c13Case) String() string {
 }
 
 var singleCatalogue = []string{
-	"honest", "other-height", "wrong-chain", "invalid", "not-found", "unknown-status", "invalid-status",
+	"honest", "other-height", "wrong-chain", "invalid", "not-found", "unknown-status", "negative-status", "invalid-status",
 	"empty-close", "truncated-frame", "oversized-prefix", "random-bytes", "malformed-frame", "garbage-body", "empty-body",
 	"two-responses", "hang", "reset",
 }
